@@ -597,7 +597,9 @@ func smapPeek(x *Exec, st *State, recv Value) *MapObj {
 	return &MapObj{}
 }
 
-// doAssert checks an assertion on the current path.
+// doAssert records an assertion on the current path.  Assertions made under
+// the same path condition are decided together by one solver query
+// (flushAsserts) before the path condition changes or the path ends.
 func (x *Exec) doAssert(st *State, fr *Frame, c *Term, msg string) {
 	pos := x.pos(x.curInstr)
 	site := pos + ": " + msg
@@ -611,43 +613,56 @@ func (x *Exec) doAssert(st *State, fr *Frame, c *Term, msg string) {
 		x.Trivial++
 		return
 	}
-	neg := x.tc.Not(c)
-	q := append(append([]*Term(nil), st.pc...), neg)
-	r := x.sol.Check(q)
-	switch r {
-	case Unsat:
-		x.Discharged++
+	st.asserts = append(st.asserts, pendAssert{c: c, site: site, msg: msg, pos: pos, stack: x.stack(st)})
+}
+
+func (x *Exec) flushAsserts(st *State) {
+	if len(st.asserts) == 0 {
+		return
+	}
+	batch := st.asserts
+	st.asserts = nil
+	var negs []*Term
+	for _, a := range batch {
+		negs = append(negs, x.tc.Not(a.c))
+	}
+	any := x.tc.Or(negs...)
+	r := x.sol.Check(st.pc, any)
+	if r == Unsat {
+		x.Discharged += len(batch)
 		if len(x.Samples) < 3 {
+			q := append(append([]*Term(nil), st.pc...), any)
 			scr := x.sol.Script(q)
 			if len(scr) < 6000 {
-				x.Samples = append(x.Samples, fmt.Sprintf("; obligation %s (expect unsat)\n%s", site, scr))
+				x.Samples = append(x.Samples, fmt.Sprintf("; obligation(s) %s (+%d more under the same path condition; expect unsat)\n%s", batch[0].site, len(batch)-1, scr))
 			}
 		}
-	case Sat:
-		x.violSite[site]++
-		if x.violSite[site] > 3 {
-			// enough witnesses for this assertion site
-			if !x.feasible(st, c) {
-				panic(pathEnd{"assert always fails"})
-			}
-			x.assume(st, c)
-			return
-		}
-		m, ok := x.sol.Model(q)
-		if !ok {
-			x.inconclusive("assertion sat but no model: " + site)
-		} else {
-			x.Violations = append(x.Violations, Violation{Harness: x.harness, Msg: msg, Pos: pos, Model: m,
-				Nondet: append([]NondetRec(nil), st.nondet...), Trace: append([]string(nil), st.trace...), Kind: "assert", Stack: x.stack(st)})
-		}
-		// continue under the assumption that the assertion holds, if possible
-		if !x.feasible(st, c) {
-			panic(pathEnd{"assert always fails"})
-		}
-	default:
-		x.inconclusive("solver unknown on assertion " + site)
+		return
 	}
-	x.assume(st, c)
+	// some assertion can fail (or unknown): decide each one
+	for _, a := range batch {
+		neg := x.tc.Not(a.c)
+		r := x.sol.Check(st.pc, neg)
+		switch r {
+		case Unsat:
+			x.Discharged++
+		case Sat:
+			x.violSite[a.site]++
+			if x.violSite[a.site] > 3 {
+				continue
+			}
+			q := append(append([]*Term(nil), st.pc...), neg)
+			m, ok := x.sol.Model(q)
+			if !ok {
+				x.inconclusive("assertion sat but no model: " + a.site)
+				continue
+			}
+			x.Violations = append(x.Violations, Violation{Harness: x.harness, Msg: a.msg, Pos: a.pos, Model: m,
+				Nondet: append([]NondetRec(nil), st.nondet...), Trace: append([]string(nil), st.trace...), Kind: "assert", Stack: a.stack})
+		default:
+			x.inconclusive("solver unknown on assertion " + a.site)
+		}
+	}
 }
 
 func pcHash(pc []*Term) uint64 {
